@@ -1,6 +1,8 @@
 import PqlModel.Props.C11
 import PqlModel.Props.C11b
 import PqlModel.Props.C11Compile
+import PqlModel.Props.C11WalkIRPushes
+import PqlModel.Props.C11WalkIR
 #print axioms Pql.C11.C11_children_complete
 #print axioms Pql.C11.C11_render_props_complete
 #print axioms Pql.C11.C11_nil_guarded
@@ -26,3 +28,11 @@ import PqlModel.Props.C11Compile
 #print axioms Pql.Glue.C11_walk_ident_events
 #print axioms Pql.Glue.C11_parsed_join_conditions
 #print axioms Pql.Glue.C11_call_func_not_visited
+#print axioms Pql.AstIR.C11_walk_forms
+#print axioms Pql.AstIR.C11_walk_tables_agree
+#print axioms Pql.AstIR.walk_dec
+#print axioms Pql.AstIR.pushesOf_eq
+#print axioms Pql.AstIR.walkLoopV_decide
+#print axioms Pql.AstIR.C11_walk_ir
+#print axioms Pql.AstIR.C11_walk_ir_model
+#print axioms Pql.AstIR.C11_walk_ir_preorder
